@@ -9,10 +9,14 @@
                                     -> scale_area, scale_volume, scale_emod
      __init__.py: normalize         -> division by the LUT maximum (lmax)
      __init__.py: get_emodulus      -> get_emodulus, with its two routes
-          isinstance(visco, ndarray)   -> route_array (scale the data, look
-                                          up in the unscaled LUT, back-scale
-                                          the result, per-event viscosity)
-          else                         -> route_scalar (scale the LUT)
+          (after fix C05-single-interpolation-grid there is ONE route: the
+           event data are scaled to the LUT, looked up in the unscaled LUT,
+           the result is scaled back)
+          viscosity ndarray            -> route_array (per-event viscosity)
+          viscosity scalar             -> route_scalar (global viscosity)
+          the removed else-branch (scale the LUT instead of the data) is
+          kept as route_scale_lut: an equivalent formulation, tied to
+          nothing
      scipy.interpolate.griddata(method="linear")
                                     -> find_tri: barycentric interpolation
                                        in the first triangle of the given
@@ -165,7 +169,8 @@ Section Emod.
   Definition pxcorr (f : feat) (px x d : Q) : Q :=
     if Qeq_bool px 0 then d else d - delta f px x.
 
-  (* else-branch: the LUT is scaled to the measurement *)
+  (* REMOVED CODE (else-branch before fix C05-single-interpolation-grid): the
+     LUT is scaled to the measurement.  Kept as an equivalent formulation. *)
   Definition scaled_nodes (L : lut) (S : setup) (v : Q) : list node :=
     map (fun n =>
            (scale_featx (l_feat L) (nx n) (l_cw L) (s_cw S), nd n,
@@ -173,8 +178,8 @@ Section Emod.
                        (l_visc L) v))
         (l_nodes L).
 
-  Definition route_scalar (L : lut) (S : setup) (v : Q) (evs : list event)
-    : list (option Q) :=
+  Definition route_scale_lut (L : lut) (S : setup) (v : Q)
+             (evs : list event) : list (option Q) :=
     let nodes1 := scaled_nodes L S v in
     let xm := lmax (map nx nodes1) in
     let dm := lmax (map nd nodes1) in
@@ -185,18 +190,29 @@ Section Emod.
            find_tri (normq (fst ev) xm, normq d' dm) nn ts)
         evs.
 
-  (* if-branch: the data are scaled to the LUT, the result is scaled back
-     with the viscosity of the event *)
-  Definition array_event (L : lut) (S : setup) (xm dm : Q)
+  (* the data are scaled to the LUT, the result is scaled back with the
+     viscosity of the event; [arr]: the viscosity is an ndarray *)
+  Definition data_event (arr : bool) (L : lut) (S : setup) (xm dm : Q)
              (nn : list nnode) (ts : list triangle) (ev : event) (v : Q)
     : option Q :=
     let x4 := scale_featx (l_feat L) (fst ev) (s_cw S) (l_cw L) in
     let d' := pxcorr (l_feat L) (s_px S) (fst ev) (snd ev) in
     match find_tri (normq x4 xm, normq d' dm) nn ts with
-    | Some e => Some (scale_emod true e (l_cw L) (s_cw S) (l_fr L) (s_fr S)
+    | Some e => Some (scale_emod arr e (l_cw L) (s_cw S) (l_fr L) (s_fr S)
                                  (l_visc L) v)
     | None => None
     end.
+
+  Definition array_event := data_event true.
+
+  (* global (scalar) viscosity *)
+  Definition route_scalar (L : lut) (S : setup) (v : Q) (evs : list event)
+    : list (option Q) :=
+    let xm := lmax (map nx (l_nodes L)) in
+    let dm := lmax (map nd (l_nodes L)) in
+    let nn := normalize_nodes (l_nodes L) in
+    let ts := tri (map fst nn) in
+    map (fun ev => data_event false L S xm dm nn ts ev v) evs.
 
   (* numpy broadcasting of the viscosity array against the event array
      (in-place multiplication of emod): same length, or length one *)
@@ -521,18 +537,9 @@ Section EmodWorld.
             match get_emodulus tri delta eta L S m evs with
             | None => (w1, Err EValueError)
             | Some r =>
-                let w2 :=
-                    match m with
-                    | MTempArray _ =>
-                        hwrite w1 a (unnorm (normalize_nodes (l_nodes L)))
-                    | MNum v =>
-                        hwrite (hwrite w1 a (scaled_nodes L S v)) a
-                               (unnorm (normalize_nodes (scaled_nodes L S v)))
-                    | MTempScalar t =>
-                        hwrite (hwrite w1 a (scaled_nodes L S (eta t))) a
-                               (unnorm (normalize_nodes
-                                          (scaled_nodes L S (eta t))))
-                    end in
+                (* the only array written: the fresh copy of the table,
+                   normalised in place *)
+                let w2 := hwrite w1 a (unnorm (normalize_nodes (l_nodes L))) in
                 (w2, Ok r)
             end
         end
@@ -617,3 +624,91 @@ Fixpoint run_load_ops (w : world) (alts : list lutfile)
             end%Z in
         out ++ run_load_ops w alts r
   end.
+
+(* ======================================================================
+   the caller's event arrays in memory: copy=True / copy=False
+   ====================================================================== *)
+(* float arrays live at addresses; get_emodulus(…, copy=…) follows the code
+   (after fix C05-single-interpolation-grid):
+     datax       = np.array(area_um|volume, dtype=float, copy=copy)
+     deform      = np.array(deform, dtype=float, copy=copy)
+     deform     -= get_pixelation_delta(datax)           (in place, if px_um)
+     datax_4lut  = scale_feature(datax, inplace=False)   (always a new array)
+     deform_4lut = np.array(deform, dtype=float, copy=copy)
+     normalize(datax_4lut); normalize(deform_4lut)       (in place)
+     emod        = griddata(...)                         (a new array)
+     scale_feature(datax_4lut, inplace=True)             (in place)
+   For float64 input, np.array(copy=False) is the SAME array. *)
+Record mem := mkMem { h_cells : list (N * list Q); h_next : N }.
+
+Definition mread (m : mem) (a : N) : list Q :=
+  match nlookup a (h_cells m) with Some r => r | None => [] end.
+
+Definition mwrite (m : mem) (a : N) (v : list Q) : mem :=
+  mkMem ((a, v) :: h_cells m) (h_next m).
+
+Definition malloc (m : mem) (v : list Q) : mem * N :=
+  (mkMem ((h_next m, v) :: h_cells m) (N.succ (h_next m)), h_next m).
+
+Definition np_array (copy : bool) (m : mem) (a : N) : mem * N :=
+  if copy then malloc m (mread m a) else (m, a).
+
+Section EmodMem.
+  Variable tri : list pt -> list triangle.
+  Variable delta : feat -> Q -> Q -> Q.
+  Variable eta : Q -> Q.
+
+  Definition get_emodulus_mem (copy : bool) (m0 : mem) (L : lut) (S : setup)
+             (md : medium) (ax ad : N)
+    : mem * option (list (option Q)) :=
+    let f := l_feat L in
+    let (m1, datax) := np_array copy m0 ax in
+    let (m2, deform) := np_array copy m1 ad in
+    let m3 := if Qeq_bool (s_px S) 0 then m2
+              else mwrite m2 deform
+                          (map2 (fun x d => d - delta f (s_px S) x)
+                                (mread m2 datax) (mread m2 deform)) in
+    (* the result is computed from the values read at the start *)
+    let r := get_emodulus tri delta eta L S md
+                          (combine (mread m0 ax) (mread m0 ad)) in
+    let (m4, x4) := malloc m3 (map (fun x => scale_featx f x (s_cw S) (l_cw L))
+                                   (mread m3 datax)) in
+    let (m5, d4) := np_array copy m4 deform in
+    let xm := lmax (map nx (l_nodes L)) in
+    let dm := lmax (map nd (l_nodes L)) in
+    let m6 := mwrite m5 x4 (map (fun x => normq x xm) (mread m5 x4)) in
+    let m7 := mwrite m6 d4 (map (fun d => normq d dm) (mread m6 d4)) in
+    (* back-scaling of datax_4lut in place (its value is never used) *)
+    let m8 := mwrite m7 x4 (map (fun x => scale_featx f x (l_cw L) (s_cw S))
+                                (mread m7 x4)) in
+    (m8, r).
+End EmodMem.
+
+(* evaluation interface: copy=False on float64 arrays at addresses 0 (x) and
+   1 (deform); observable: the result and the final contents of both *)
+Definition enc_q (q : Q) : list Z := let q' := Qred q in [Qnum q'; Zpos (Qden q')].
+
+Definition run_case_nocopy (L : lut) (c : case) : list Z :=
+  let m0 := mkMem [(0%N, map fst (c_events c)); (1%N, map snd (c_events c))] 2 in
+  let (m', r) := get_emodulus_mem (fun _ => c_tris c)
+                                  (pxdelta (fun a => lookupq a (c_exp c)))
+                                  (fun t => lookupq t (c_eta c))
+                                  false m0 L (c_setup c) (c_medium c) 0 1 in
+  enc_all r ++ [77%Z] ++ flat_map enc_q (mread m' 0) ++ [77%Z]
+          ++ flat_map enc_q (mread m' 1).
+
+(* evaluation interface for histories: run_ops itself, on tables of three
+   nodes (their only triangle is the triangulation), no pixelation *)
+Definition enc_outcome (o : outcome) : list Z :=
+  match o with
+  | OutCall (Ok r) => 0%Z :: flat_map enc_res r
+  | OutCall (Err e) => [err_code e]
+  | OutReg (Ok _) => [0%Z]
+  | OutReg (Err e) => [err_code e]
+  | OutUnit => []
+  end.
+
+Definition run_ops_flat (w : world) (ops : list op) : list Z :=
+  flat_map enc_outcome
+           (snd (run_ops (fun _ => [(0, 1, 2)%N]) (fun _ _ _ => 0) (fun t => t)
+                         w ops)).
